@@ -544,10 +544,14 @@ func VerifDecodedIsEncoded(d []byte, o Options, r Options, defs map[OptionID]Opt
 	VerifParseOfEncoding(d, o, defs)
 }
 
-// Assumed contracts (CRC-64 of the token bytes; deep copy of an option list):
+// Assumed contracts (CRC-64 of the token bytes - modelled as a function of the slice, whose bytes are not
+// modified between the calls that are compared; deep copy of an option list):
+//
+//@ spec tokenHashOf(t Token) int
 //
 //@ func (Token) Hash() (h uint64)
 //@   trusted
+//@   ensures h == tokenHashOf(t)
 //
 //@ func (Options) Clone() (c Options, err error)
 //@   trusted
